@@ -371,6 +371,15 @@ example : exF1.symsEq exF1 = true := by decide
 example : (exComplete.toPartialMin).states.length = 2 ∧ (exComplete.complementMin).states.length = 2 := by
   decide
 
+/-- `PyShape` cannot be dropped in the list model: a row with a duplicate key (impossible for
+a Python dict) is read by `.get` at its first entry but copied entry by entry by `_minify`. -/
+def exDupKey : AV.DFA Nat Nat :=
+  { states := [0, 1], syms := [0], trans := [(0, [(0, 1), (0, 0)]), (1, [])],
+    init := 0, finals := [0], allowPartial := true }
+
+example : exDupKey.validate = .ok () := rfl
+example : exDupKey.accepts [0] = false ∧ exDupKey.minify.accepts [0] = true := by decide
+
 /-- The unrestricted naming claim fails (F16): the exception in `C05_retain_names_partial`
 is necessary. -/
 theorem C05_retain_names_full_fails : ¬ C05_retain_names_full Nat Nat := by
